@@ -301,9 +301,15 @@ func createShimChannel(ctx context.Context, host, shimPath string, rewriteHost b
 	mux := http.NewServeMux()
 	openWebsocketHandler := openWebsocketWrapper(http.HandlerFunc(func(w http.ResponseWriter, r *http.Request) {
 		sessionID := fmt.Sprintf("%d", atomic.AddUint64(&sessionCount, 1))
-		targetURL := *(r.URL)
-		targetURL.Scheme = "ws"
-		targetURL.Host = host
+		// The client-supplied URL only contributes the path and the query; everything that
+		// determines which peer gets dialled (scheme, host, user info, opaque data) is fixed here.
+		targetURL := url.URL{
+			Scheme:   "ws",
+			Host:     host,
+			Path:     r.URL.Path,
+			RawPath:  r.URL.RawPath,
+			RawQuery: r.URL.RawQuery,
+		}
 		if originalHost := r.Host; rewriteHost && originalHost != "" {
 			r.Header.Set("Host", originalHost)
 		}
